@@ -8,6 +8,7 @@ from ..flow import (guards_at, flatten_guards, SeqFlow, RETURN, always_exits,
                     PathExplosion)
 from ..constfold import fold, Unknown, try_fold
 from ..mutate import Mutant, in_func
+from .. import guardspec
 
 ID = 'C05'
 EXPLANATION = (
@@ -375,6 +376,37 @@ def rule_r2(prog, res):
                 if parent(n) is a:
                     ok = True
                 break
+    # the counter key still names the element being counted: no inner loop
+    # re-binds the key variable between its computation and the increment
+    for n in incs:
+        sl = n.target.slice if isinstance(n.target, ast.Subscript) else None
+        if not isinstance(sl, ast.Name):
+            continue
+        binds = [x for x in walk_no_defs(g.node) if isinstance(x, ast.Assign)
+                 and any(isinstance(t, ast.Name) and t.id == sl.id
+                         for t in x.targets) and x.lineno < n.lineno]
+        if not binds:
+            continue
+        last = max(binds, key=lambda x: x.lineno)
+        shadow = [x for x in walk_no_defs(g.node) if isinstance(x, ast.For)
+                  and last.lineno < x.lineno < n.lineno and any(
+                      isinstance(t, ast.Name) and t.id == sl.id
+                      for t in ast.walk(x.target))]
+        where = '%s:%d' % (g.module.relpath, n.lineno)
+        res.ob('R2', where, 'complex_from_element: %s uses %s bound at line '
+               '%d%s' % (unparse(n), sl.id, last.lineno,
+                         ', re-bound by the loop at line %d' %
+                         shadow[0].lineno if shadow else ''),
+               'VIOLATED' if shadow else 'ok')
+        if shadow:
+            res.finding('R2', 'XmlDocument.complex_from_element|count-key-'
+                        'shadowed|%s' % sl.id, where,
+                        'the occurrence counter is incremented under %s '
+                        'after the loop at line %d re-bound that variable: '
+                        'for an element carrying XML attributes the count '
+                        'goes to the last attribute name, so min/max_occurs '
+                        'of the element are compared with the wrong number' %
+                        (sl.id, shadow[0].lineno))
     res.ob('R2', g.where, 'complex_from_element counts every child element',
            'ok' if ok else 'VIOLATED')
     if not ok:
@@ -872,6 +904,88 @@ def rule_r6(prog, res):
            'ok')
 
 
+# ------------------------------------------------------------------- R7
+def rule_r7(prog, res):
+    res.rule('R7', 'validate_native runs for every decoded value under soft '
+             'validation: no further condition on the value')
+    n = 0
+    for f in prog.all_functions():
+        if not f.module.name.startswith('spyne.protocol'):
+            continue
+        for c in calls_in(f.node):
+            if call_name(c) != 'validate_native':
+                continue
+            n += 1
+            where = '%s:%d' % (f.module.relpath, c.lineno)
+            atoms = guardspec.atoms_at(c, f.node)
+            extra = []
+            soft = False
+            for t, pol in atoms:
+                if 'SOFT_VALIDATION' in t and 'validate_string' not in t \
+                        and pol and ' and ' not in t and ' or ' not in t:
+                    soft = True
+                    continue
+                if 'validate_string' in t and not pol:
+                    continue      # fall-through of the string check's raise
+                extra.append((t, pol))
+            ok = soft and not extra
+            res.ob('R7', where, '%s: validate_native under %s' % (
+                f.qualname, ['%s%s' % ('' if p_ else 'not ', t)
+                             for t, p_ in atoms]),
+                'ok' if ok else 'VIOLATED')
+            if not soft:
+                res.finding('R7', '%s|validate_native|not-under-soft' %
+                            f.qualname, where, 'validate_native in %s is not '
+                            'dominated by the soft-validation test' %
+                            f.qualname)
+            for t, pol in extra:
+                res.finding('R7', '%s|validate_native|extra-guard|%s%s' % (
+                    f.qualname, '' if pol else 'not ', t), where,
+                    'validate_native in %s additionally requires "%s%s": '
+                    'values failing that condition (a None produced by '
+                    'empty_is_none or a custom parser) are delivered without '
+                    'the nullable/range test, while the XML family still '
+                    'rejects them' % (f.qualname, '' if pol else 'not ', t))
+    res.floor('R7', 'validate_native call sites in the protocols', n, 5)
+
+
+# ------------------------------------------------------------------- R8
+def rule_r8(prog, res):
+    res.rule('R8', 'the length guard derived from total_digits leaves room '
+             'for sign, separator and leading zero')
+    c = prog.cls('spyne.model.primitive.number:Decimal')
+    f = c.methods.get('_s_customize')
+    if f is None:
+        raise AnalysisError('Decimal._s_customize', 'not found')
+    n = 0
+    for a in walk_no_defs(f.node):
+        if not (isinstance(a, ast.Assign) and len(a.targets) == 1 and
+                'max_str_len' in unparse(a.targets[0])):
+            continue
+        v = a.value
+        if not (isinstance(v, ast.BinOp) and isinstance(v.op, ast.Add)):
+            continue
+        const = v.right if isinstance(v.right, ast.Constant) else v.left
+        other = v.left if const is v.right else v.right
+        if not isinstance(const, ast.Constant) or \
+                'digits' not in unparse(other) and unparse(other) != 'td':
+            continue
+        n += 1
+        where = '%s:%d' % (f.module.relpath, a.lineno)
+        ok = const.value >= 3
+        res.ob('R8', where, 'Decimal._s_customize: max_str_len = %s' %
+               unparse(v), 'ok' if ok else 'VIOLATED', nontrivial=True)
+        if not ok:
+            res.finding('R8', 'Decimal._s_customize|max_str_len|+%s' %
+                        const.value, where, 'max_str_len is derived as %s: '
+                        'the longest literal with that many digits is '
+                        '"-0." followed by the digits, i.e. digits + 3 '
+                        'characters, so a value satisfying every declared '
+                        'facet (-0.125 for total_digits=3) is rejected as '
+                        'too long' % unparse(v))
+    res.floor('R8', 'derived max_str_len assignments', n, 1)
+
+
 def run(prog, res, tier):
     res.run_rule(rule_r1, prog, res)
     res.run_rule(rule_r2, prog, res)
@@ -879,6 +993,8 @@ def run(prog, res, tier):
     res.run_rule(rule_r4, prog, res)
     res.run_rule(rule_r5, prog, res)
     res.run_rule(rule_r6, prog, res)
+    res.run_rule(rule_r7, prog, res)
+    res.run_rule(rule_r8, prog, res)
 
 
 _X = 'spyne/protocol/xml.py'
@@ -892,6 +1008,37 @@ _I = 'spyne/protocol/_inbase.py'
 _SI = 'spyne/protocol/dictdoc/simple.py'
 
 MUTANTS = [
+    Mutant('count-after-attr-loop', 'R2', 'fire', _X,
+           in_func('XmlDocument.complex_from_element',
+                   r"(            frequencies\[key\] \+= 1\n)(.*?)"
+                   r"(\n        for key, value_str in elt\.attrib\.items)",
+                   lambda m_: m_.group(2) + "\n" + m_.group(1) + m_.group(3),
+                   regex=True), 'count-key-shadowed'),
+    Mutant('native-check-skips-none', 'R7', 'fire', _H,
+           in_func('HierDictDocument._from_dict_value',
+                   "        if validator is self.SOFT_VALIDATION:\n"
+                   "            if not cls.validate_native(cls, retval):",
+                   "        if validator is self.SOFT_VALIDATION and "
+                   "retval is not None:\n"
+                   "            if not cls.validate_native(cls, retval):"),
+           'extra-guard'),
+    Mutant('native-check-merged-test', 'R7', 'benign', _H,
+           in_func('HierDictDocument._from_dict_value',
+                   "        if validator is self.SOFT_VALIDATION:\n"
+                   "            if not cls.validate_native(cls, retval):\n"
+                   "                raise ValidationError([key, retval])",
+                   "        if validator is self.SOFT_VALIDATION and not "
+                   "cls.validate_native(cls, retval):\n"
+                   "            raise ValidationError([key, retval])\n"
+                   "            pass"), None),
+    Mutant('decimal-length-guard-short', 'R8', 'fire', _N,
+           in_func('Decimal._s_customize',
+                   "cls.Attributes.total_digits + 3",
+                   "cls.Attributes.total_digits + 2"), 'max_str_len'),
+    Mutant('decimal-length-guard-own-digits', 'R8', 'benign', _N,
+           in_func('Decimal._s_customize',
+                   "cls.Attributes.total_digits + 3",
+                   "cls.Attributes.total_digits + 4"), None),
     Mutant('element-native-unvalidated', 'R1', 'fire', _X,
            in_func('XmlDocument.base_from_element',
                    r"        if self\.validator is self\.SOFT_VALIDATION and "
